@@ -19,7 +19,7 @@ RULE = ('seeded generator: field shapes 1..7 per side (even/odd/non-square/one-e
 ASSUMPTIONS = ['one-element fields are infinite constants only in products (DESIGN.md C06 domain decision)',
                'scalar x scalar with different offsets is excluded (documented lentil rule, unreachable via Plane/Wavefront)']
 PLAN = {'quick': {'gen': 8}, 'thorough': {'gen': 16, 'tests': 1, 'docs': 1}}
-REQUIRED_BUCKETS = ['mul:array*array', 'mul:array*scalar', 'mul:scalar*scalar', 'mul:disjoint',
+REQUIRED_BUCKETS = ['merge:constants', 'mul:array*array', 'mul:array*scalar', 'mul:scalar*scalar', 'mul:disjoint',
                     'insert:inside', 'insert:clipped', 'insert:outside', 'insert:intensity',
                     'reduce:n>=3', 'boundary:negative-only', 'extent:queries']
 REQUIRED_ANCHORS = ['probe:Field.__mul__', 'probe:insert', 'probe:_merge', 'probe:reduce', 'probe:boundary',
@@ -153,8 +153,23 @@ def insert_oracle(ctx, args, kwargs, result, exc, pre):
 insert_oracle.before = insert_before
 
 
+def _all_constants(fields):
+    return all(f.data.ndim == 0 and tuple(int(x) for x in f.offset) == (0, 0) for f in fields)
+
+
 def _merge_check(ctx, fields, result, exc, key):
     fields = list(fields)
+    if fields and _all_constants(fields):
+        # infinite constants add up to an infinite constant
+        wit = {'constants': [complex(f.data) for f in fields]}
+        if exc is not None:
+            ctx.check(False, 'merge=canvas', f'{key}|constants|raises={type(exc).__name__}', f'merge of constants raised: {exc}', wit)
+            return
+        tot = sum(complex(f.data) for f in fields)
+        ok = np.ndim(result.data) == 0 and abs(complex(result.data) - tot) <= TOL * max(1.0, sum(abs(complex(f.data)) for f in fields))
+        ctx.check(ok, 'merge=canvas', f'{key}|constants', 'the merge of constant fields is not the constant that is their sum',
+                  dict(wit, got=np.asarray(result.data)))
+        return
     if any(f.data.ndim != 2 or f.data.size == 0 for f in fields):
         ctx.skip('merge: constant (0-d) operand has no finite embedding')
         return
@@ -196,6 +211,17 @@ def merge_private_oracle(ctx, args, kwargs, result, exc, pre):
 def reduce_oracle(ctx, args, kwargs, result, exc, pre):
     fields = list(args[0])
     if not fields:
+        return
+    if _all_constants(fields):
+        wit = {'constants': [complex(f.data) for f in fields]}
+        if exc is not None:
+            ctx.check(False, 'reduce=canvas', f'reduce|constants|raises={type(exc).__name__}', f'reduce of constants raised: {exc}', wit)
+            return
+        tot = sum(complex(f.data) for f in fields)
+        ok = all(np.ndim(f.data) == 0 for f in result) and \
+            abs(sum(complex(f.data) for f in result) - tot) <= TOL * max(1.0, sum(abs(complex(f.data)) for f in fields))
+        ctx.check(ok, 'reduce=canvas', 'reduce|constants', 'reducing a collection of constant fields changed its total',
+                  dict(wit, got=[np.asarray(f.data) for f in result]))
         return
     if any(f.data.ndim != 2 or f.data.size == 0 for f in fields):
         ctx.skip('reduce: constant (0-d) operand has no finite embedding')
@@ -380,6 +406,33 @@ def workload(ctx, lentil):
             if not ov:
                 ctx.expect_raises('merge=canvas', (ValueError,), lambda: F.merge(a, b),
                                   'merge|enforce', 'merge(enforce_overlap=True) accepted disjoint fields')
+
+    # ---- collections of constants (0-d fields): their merge / reduction is the constant that is their sum --------------
+    for i in range(max(6, n // 20)):
+        k = int(rng.integers(2, 5))
+        consts = [Field(np.array(complex(rng.normal(), rng.normal()))) if rng.random() < 0.7 else Field(float(rng.integers(1, 5)))
+                  for _ in range(k)]
+        ctx.case({'op': 'merge-constants', 'values': [complex(f.data) for f in consts]}, ['merge:constants'])
+        try:
+            m = F.merge(consts[0], consts[1])
+            _merge_check(ctx, consts[:2], m, None, 'merge-public')
+        except Exception as e:
+            _merge_check(ctx, consts[:2], None, e, 'merge-public')
+        try:
+            F.reduce(consts)                 # probe decides
+        except Exception:
+            pass
+        try:
+            w = lentil.Wavefront(6e-7)
+            w.data = list(consts)
+            tot = sum(complex(f.data) for f in consts)
+            with np.errstate(all='ignore'):
+                fld = w.field
+            ctx.check(np.allclose(np.asarray(fld), tot, rtol=1e-12, atol=1e-12), 'merge=canvas', 'wavefront|constants|field',
+                      'the field of a wavefront made of constant fields is not their sum', {'values': [complex(f.data) for f in consts],
+                                                                                          'got': np.asarray(fld)})
+        except Exception as e:
+            ctx.check(False, 'merge=canvas', f'wavefront|constants|raises={type(e).__name__}', str(e), {})
 
     # ---- extent queries -------------------------------------------------------
     for i in range(n * 2):
